@@ -10,6 +10,7 @@ use moka::future::Cache;
 use std::path::PathBuf;
 use std::sync::atomic::{AtomicU64, Ordering};
 use std::sync::Arc;
+use tracing::warn;
 
 /// Cache configuration
 #[derive(Debug, Clone)]
@@ -130,11 +131,17 @@ impl TieredCache {
 
         // Try L2 (NVMe) if available - foyer 0.12 returns Option<HybridCacheEntry>
         if let Some(ref l2) = self.l2 {
-            if let Some(entry) = l2
-                .get(&key.to_string())
-                .await
-                .map_err(|e| Error::Internal(format!("L2 cache error: {}", e)))?
-            {
+            // A cache tier may only fail open: an error of the cache device is a miss (the
+            // entry is dropped so that it does not keep failing), never a failed read.
+            let l2_entry = match l2.get(&key.to_string()).await {
+                Ok(entry) => entry,
+                Err(e) => {
+                    warn!(key = %key, error = %e, "L2 cache error, reading from the backing store");
+                    l2.remove(&key.to_string());
+                    None
+                }
+            };
+            if let Some(entry) = l2_entry {
                 self.stats.l2_hits.fetch_add(1, Ordering::Relaxed);
                 telemetry::record_cache_hit();
                 let bytes = Bytes::from(entry.value().clone());
